@@ -157,9 +157,12 @@ func (c *ctx) c16run(cmds []c16cmd, ntx int, buffered bool) {
 			}
 		}()
 		first := map[xsens.DataType]int64{}
+		mode := xsens.MessageIdentifier(0)
+		modeTaken := false
 		select {
 		case r := <-rc:
 			err = r.err
+			mode, modeTaken = emu.LastMessageIdentifier(), true
 			// observe at once, the types the command was about first
 			if cm.kind == 1 {
 				for _, s := range cm.cfg {
@@ -171,11 +174,13 @@ func (c *ctx) c16run(cmds []c16cmd, ntx int, buffered bool) {
 					}
 				}
 			}
-		case <-time.After(10 * time.Second):
+		case <-time.After(3 * time.Second):
 			err = context.DeadlineExceeded
 			c.dist["command-timeouts"]++
 		}
-		mode := emu.LastMessageIdentifier()
+		if !modeTaken {
+			mode = emu.LastMessageIdentifier()
+		}
 		var ids []string
 		for _, t := range probeTypes {
 			if v, ok := first[t]; ok {
@@ -269,7 +274,7 @@ func (c *ctx) c16run(cmds []c16cmd, ntx int, buffered bool) {
 			}()
 			select {
 			case rx = <-rcv:
-			case <-time.After(10 * time.Second):
+			case <-time.After(3 * time.Second):
 				c.dist["receive-timeouts"]++
 			}
 			rxTerms = append(rxTerms, rx)
@@ -300,6 +305,10 @@ func init() {
 		}
 		procs := []int{1, 2, 4, 16}
 		run := func(cmds []c16cmd, ntx int) {
+			if c.dist["command-timeouts"]+c.dist["receive-timeouts"]+c.dist["transmit-timeouts"] >= 3 {
+				c.dist["cases-skipped-after-timeouts"]++
+				return // the link is hanging: three witnesses are enough, do not wait for hundreds more
+			}
 			for _, buffered := range []bool{false, true} {
 				old := runtime.GOMAXPROCS(procs[c.rng.Intn(len(procs))])
 				c.c16run(cmds, ntx, buffered)
